@@ -34,7 +34,8 @@ CHECKS = {
  "C07": dict(text="Worker side proved for all interleavings (all-or-nothing, exact reply, order kept, nothing started is withdrawn); controller side proved for all scheduler states (one request outstanding, "
              "tail only, >=2 left, reply processing, dead victim cancels). " + SYS, design="5/C07", technique=TECH),
  "C08": dict(text=SYS + "Proved (all states): initial node gets run-all+shutdown and is booked everything; crash keeps the remainder other than the crashed test and blocks tests_finished; an equal-spec, "
-             "equal-collection replacement inherits exactly the remainder; a disagreeing one inherits nothing.", design="5/C08", technique=TECH),
+             "equal-collection replacement inherits exactly the remainder; a disagreeing one inherits nothing. SYSTEM level (EachSystem.v; no worker failure, workers may collect different lists, every schedule): "
+             "every worker starts a prefix of its own collection in order, exactly the whole collection when the session ends as finished, and the controller never raises.", design="5/C08", technique=TECH),
  "C09": dict(text=SYS + "Proved (all states/collections): diff None iff equal; initial disagreement => no command, one failed collect report per disagreeing worker; disagreeing replacement is never "
              "registered, gets no tests, is shut down; invariant over every reachable scheduler state: whoever is sent positions registered exactly the reference collection.", design="5/C09", technique=TECH),
  "C10": dict(text=SYS + "Proved for EVERY event sequence and scheduler state: replacements started <= max(0, budget); budget <= 0 disables replacement; one death spawns at most one replacement. "
